@@ -79,13 +79,20 @@ type machine struct {
 	st      map[string]intset  // nil entry = never seen (= {0})
 	dead    map[string]bool    // the machine rejected a verdict of this sequence
 	sets    map[string][]int64 // policy: instants at which state may have been written (retry verdicts)
-	// bookkeeping for the structural predicates and the evidence classes
-	leakArmed map[string]bool // an out-of-condition response met a surviving counter (variantFlowsLeak)
+	// bookkeeping for the structural predicates of the defect machines: armed[seq] is set when the
+	// history of seq contains the trigger of the defect —
+	//   variantFlowsLeak:  an out-of-condition response met a counter > 0 (which survives it);
+	//   variantPolicyIDEq: an in-condition response that is not a call start and carries the
+	//                      sequence id as its id was retried although, in a reading the statement
+	//                      machine still held possible, the call had used up its attempts
+	//                      (set by the judge, which sees both machines).
+	// The judge clears it when statement and defect machine are both back at "nothing remembered".
+	armed map[string]bool
 }
 
 func newMachine(n int, policy bool, variant int, cdMax int64) *machine {
 	return &machine{n: n, policy: policy, variant: variant, cdMax: cdMax,
-		st: map[string]intset{}, dead: map[string]bool{}, sets: map[string][]int64{}, leakArmed: map[string]bool{}}
+		st: map[string]intset{}, dead: map[string]bool{}, sets: map[string][]int64{}, armed: map[string]bool{}}
 }
 
 func (m *machine) state(seq string) intset {
@@ -196,7 +203,7 @@ func (m *machine) step(e event, verdict string) bool {
 	if m.variant == variantFlowsLeak && !e.InCond {
 		for k := range m.state(e.Seq) {
 			if k > 0 {
-				m.leakArmed[e.Seq] = true
+				m.armed[e.Seq] = true
 			}
 		}
 	}
@@ -210,6 +217,11 @@ func (m *machine) step(e event, verdict string) bool {
 		m.sets[e.Seq] = append(m.sets[e.Seq], e.Now)
 	}
 	return true
+}
+
+func (m *machine) atRest(seq string) bool {
+	s := m.state(seq)
+	return len(s) == 1 && s[0]
 }
 
 func (m *machine) wants(e event) []string {
